@@ -7,9 +7,11 @@ LEVEL = "model_checking"
 def run(ck):
     quick = ck.tier == "quick"
     if quick:
-        conslib.quorum_design(ck, ["MCQ_c02_r0"], ["MCQ_atbound_r0"])
+        conslib.quorum_design(ck, ["MCQ_c02_r0", "MCQ_c02x_r0"], ["MCQ_atbound_r0"])
     else:
-        conslib.quorum_design(ck, ["MCQ_c02_r0", "MCQ_c02"], ["MCQ_atbound"], timeout=2400)
+        # c02x: a value with the right base that nobody proposes is available to the adversary; the mutant that drops the PREPARE-quorum
+        # requirement of the CONVERGE filter must let it be decided (Validity refuted)
+        conslib.quorum_design(ck, ["MCQ_c02_r0", "MCQ_c02x_r0", "MCQ_c02", "MCQ_c02x"], ["MCQ_atbound", "MCQ_mutConvNoPrepare"], timeout=2400)
     hists = conslib.permsg_design(ck, "c02", "nest", 120 if quick else 3000, maxround=2)
     # second sentence at design level: common input, synchronous from the first step (PrefixLen = 0), faulty member silent, quiescence-gated
     # timeouts: no stuck state, nobody leaves round 0 (K = 0), and only the common input is ever decided; the walks are replayed below
